@@ -4,7 +4,6 @@ import (
 	"bytes"
 	"errors"
 	"fmt"
-	"regexp"
 	"strconv"
 	"strings"
 	"unicode"
@@ -21,7 +20,22 @@ type chr struct { //nolint:unused
 	width int
 }
 
-var matchIdentifier = regexp.MustCompile(`^[$_\p{L}][$_\p{L}\d}]*$`)
+// isIdentifierName reports whether literal (with escapes already decoded) is an
+// IdentifierName by the same rules the lexer applies when scanning one.
+func isIdentifierName(literal string) bool {
+	if literal == "" {
+		return false
+	}
+	for i, chr := range literal {
+		if chr == '\\' {
+			return false
+		}
+		if i == 0 && !isIdentifierStart(chr) || i > 0 && !isIdentifierPart(chr) {
+			return false
+		}
+	}
+	return true
+}
 
 func isDecimalDigit(chr rune) bool {
 	return '0' <= chr && chr <= '9'
